@@ -543,15 +543,15 @@ def allclose(a, b, rtol=1e-8, atol=None):
     try:
         len(d)
     except TypeError:
-        return d <= lim
+        return np.all(d <= lim)  # lim may be an array (atol)
     else:
         try:
             len(lim)
         except TypeError:
             return np.all([_d <= lim for _d in d])
         else:
-            if len(lim) != len(d):  # ``a`` was broadcast against ``b``
-                lim = lim + 0 * d
+            if len(lim) != len(d):  # broadcast both to the common shape
+                lim, d = lim + 0 * d, d + 0 * lim
             return np.all([_d <= _lim for _d, _lim in zip(d, lim)])
 
 
